@@ -91,6 +91,10 @@ var dotCorpus = []string{
 	"digraph { subgraph { subgraph { a } b } -> c }",
 	"strict graph { a -- b; b -- a; a -- b [k=v] }",
 	"digraph { a:\"n\" -> b:n:se; c:x:y -> d }",
+	"digraph { {A; {B C} -> D} -> E }",
+	"digraph { P -> {Q -> {R S}} }",
+	"graph { {a -- {b {c d}}} -- {e; {f -- {g h}}} -- i }",
+	"digraph { x; y; subgraph s1 { x -> { y; subgraph { z -> { u v } } } } -> { w { x } } }",
 }
 
 var nquadCorpus = []string{
@@ -167,6 +171,9 @@ func Corpus(name string, seed uint64) [][]byte {
 	case "dot.Parse", "dot.Unmarshal":
 		for _, s := range dotCorpus {
 			add(s)
+		}
+		for i := 0; i < 8; i++ {
+			add(GenNestedDot(r, NestedDotOptions{MaxDepth: 1 + i%3, Pool: 4 + 3*(i%4), NoSelf: i%2 == 0}))
 		}
 	case "rdf.ParseNQuad":
 		for _, s := range nquadCorpus {
